@@ -16,9 +16,8 @@ theorem snoc_induction {α : Type} {P : List α → Prop} (h0 : P [])
 def stepO (I T : Nat) (s : St) (o : Outcome) : St :=
   match s.status with
   | .running =>
-    let k := s.tick + 1
-    let t := k * I
-    let s1 : St := { s with tick := k, pings := s.pings ++ [t] }
+    let t := nextStart I s.last s.free
+    let s1 : St := { s with tick := s.tick + 1, pings := s.pings ++ [t], last := t, free := t + o.dur }
     match o with
     | .ok _ => { s1 with fails := 0 }
     | .mnf _ => { s1 with status := .stopped }
@@ -37,7 +36,8 @@ theorem step_eq_stepO (I T : Nat) (s : St) (sc : Script) :
     step I T s sc = stepO I T s (observe (pingTimeout I) sc) := by
   unfold step stepO
   cases s.status <;> simp only []
-  cases observe (pingTimeout I) sc <;> simp only []
+  generalize observe (pingTimeout I) sc = o
+  cases o <;> simp only []
   by_cases h : s.fails + 1 < T
   · have ht : tolerated (↑(s.fails + 1)) ↑T = true := by simp [tolerated]; omega
     rw [if_pos ht, if_pos h]
@@ -59,14 +59,15 @@ theorem runO_snoc (I T : Nat) (os : List Outcome) (o : Outcome) :
     runO I T (os ++ [o]) = stepO I T (runO I T os) o := by
   simp [runO, List.foldl_append]
 
-theorem observe_dur_le (to : Nat) (sc : Script) : (observe to sc).dur ≤ to := by
+theorem observe_dur_le (to : Nat) (sc : Script) (hh : sc.honours = true) :
+    (observe to sc).dur ≤ to := by
   unfold observe
   cases sc.delay with
   | none => simp [Outcome.dur]
   | some d =>
     by_cases h : d < to
     · cases sc.kind <;> simp [h, Outcome.dur] <;> omega
-    · simp [h, Outcome.dur]
+    · simp [h, hh, Outcome.dur]
 
 theorem threshold_eq (t0 : Int) : threshold t0 = if t0 < 1 then 1 else t0.toNat := by
   unfold threshold normThreshold
@@ -139,24 +140,196 @@ def tickTimes (I n : Nat) : List Nat := (List.range n).map fun j => (j + 1) * I
 theorem tickTimes_succ (I n : Nat) : tickTimes I (n + 1) = tickTimes I n ++ [(n + 1) * I] := by
   simp [tickTimes, List.range_succ]
 
+/-! ### Timing: when the pings are issued and when they end -/
+
+theorem gridAfter_gt (I t : Nat) (hI : 0 < I) : t < gridAfter I t := by
+  unfold gridAfter
+  have := Nat.div_add_mod t I
+  have := Nat.mod_lt t hI
+  rw [Nat.add_mul, Nat.mul_comm (t / I) I]
+  omega
+
+theorem gridAfter_mul (I k : Nat) (hI : 0 < I) : gridAfter I (k * I) = (k + 1) * I := by
+  unfold gridAfter
+  rw [Nat.mul_div_cancel k hI]
+
+theorem gridAfter_le (I t : Nat) : gridAfter I t ≤ t + I := by
+  unfold gridAfter
+  have := Nat.div_mul_le_self t I
+  rw [Nat.add_mul]; omega
+
+/-- The timing part of the loop's state. -/
+structure Tm where
+  pings : List Nat := []
+  last : Nat := 0
+  free : Nat := 0
+
+def tmStep (I : Nat) (t : Tm) (o : Outcome) : Tm :=
+  { pings := t.pings ++ [nextStart I t.last t.free], last := nextStart I t.last t.free,
+    free := nextStart I t.last t.free + o.dur }
+
+def tmFrom (I : Nat) (t : Tm) (os : List Outcome) : Tm := os.foldl (tmStep I) t
+
+/-- The timing of a loop that serves all of `os`. -/
+def tm (I : Nat) (os : List Outcome) : Tm := tmFrom I {} os
+
+theorem tm_snoc (I : Nat) (os : List Outcome) (o : Outcome) :
+    tm I (os ++ [o]) = tmStep I (tm I os) o := by
+  simp [tm, tmFrom, List.foldl_append]
+
+theorem tmFrom_snoc (I : Nat) (t : Tm) (os : List Outcome) (o : Outcome) :
+    tmFrom I t (os ++ [o]) = tmStep I (tmFrom I t os) o := by
+  simp [tmFrom, List.foldl_append]
+
+/-- The instant at which ping `k` (k ≥ 1) of a loop that serves `os` is issued / is over; 0 for `k = 0`. -/
+def pStart (I : Nat) (os : List Outcome) (k : Nat) : Nat := (tm I (os.take k)).last
+def pEnd (I : Nat) (os : List Outcome) (k : Nat) : Nat := (tm I (os.take k)).free
+
+theorem take_succ_snoc (os : List Outcome) (k : Nat) (o : Outcome) (h : os[k]? = some o) :
+    os.take (k + 1) = os.take k ++ [o] := by
+  rw [List.take_add_one, h]; rfl
+
+/-- The recurrence of the schedule: ping `k+1` is issued at the first grid tick after ping `k` was
+issued, or when ping `k` ends if that is later; it ends after its duration. -/
+theorem pStart_succ (I : Nat) (os : List Outcome) (k : Nat) (o : Outcome) (h : os[k]? = some o) :
+    pStart I os (k + 1) = nextStart I (pStart I os k) (pEnd I os k) ∧
+      pEnd I os (k + 1) = pStart I os (k + 1) + o.dur := by
+  unfold pStart pEnd
+  rw [take_succ_snoc os k o h, tm_snoc]
+  simp [tmStep]
+
+theorem pStart_zero (I : Nat) (os : List Outcome) : pStart I os 0 = 0 ∧ pEnd I os 0 = 0 := by
+  simp [pStart, pEnd, tm, tmFrom]
+
+theorem tm_pings (I : Nat) (os : List Outcome) :
+    (tm I os).pings = (List.range os.length).map fun j => pStart I os (j + 1) := by
+  induction os using snoc_induction with
+  | h0 => simp [tm, tmFrom]
+  | hs os o ih =>
+    rw [tm_snoc]
+    simp only [tmStep, List.length_append, List.length_cons, List.length_nil, Nat.zero_add,
+      List.range_succ, List.map_append, List.map_cons, List.map_nil]
+    have hlast : nextStart I (tm I os).last (tm I os).free = pStart I (os ++ [o]) (os.length + 1) := by
+      unfold pStart
+      rw [List.take_of_length_le (by simp), tm_snoc]
+      simp [tmStep]
+    rw [hlast, ih]
+    congr 1
+    apply List.map_congr_left
+    intro j hj
+    have hj' : j < os.length := by simpa using hj
+    unfold pStart
+    rw [List.take_append_of_le_length (by omega)]
+
+theorem tm_pings_length (I : Nat) (os : List Outcome) : (tm I os).pings.length = os.length := by
+  rw [tm_pings]; simp
+
+/-- Every ping is over no earlier than it was issued, and issued no earlier than the previous one ended. -/
+theorem pStart_le_pEnd (I : Nat) (os : List Outcome) (k : Nat) : pStart I os k ≤ pEnd I os k := by
+  cases k with
+  | zero => simp [pStart_zero]
+  | succ j =>
+    cases h : os[j]? with
+    | none =>
+      have hlen : os.length ≤ j := by
+        rcases Nat.lt_or_ge j os.length with hlt | hge
+        · rw [List.getElem?_eq_getElem hlt] at h; cases h
+        · exact hge
+      unfold pStart pEnd
+      rw [List.take_of_length_le (by omega)]
+      induction os using snoc_induction with
+      | h0 => simp [tm, tmFrom]
+      | hs os o _ => rw [tm_snoc]; simp [tmStep]
+    | some o => have := (pStart_succ I os j o h).2; omega
+
+theorem pEnd_le_pStart_succ (I : Nat) (os : List Outcome) (k : Nat) (hk : k < os.length) :
+    pEnd I os k ≤ pStart I os (k + 1) ∧ gridAfter I (pStart I os k) ≤ pStart I os (k + 1) := by
+  have h : os[k]? = some os[k] := List.getElem?_eq_getElem hk
+  rw [(pStart_succ I os k _ h).1]
+  unfold nextStart
+  exact ⟨Nat.le_max_left _ _, Nat.le_max_right _ _⟩
+
+theorem pEnd_mono_succ (I : Nat) (os : List Outcome) (k : Nat) (hk : k < os.length) :
+    pEnd I os k ≤ pEnd I os (k + 1) := by
+  have := (pEnd_le_pStart_succ I os k hk).1
+  have := pStart_le_pEnd I os (k + 1)
+  omega
+
+theorem pEnd_mono (I : Nat) (os : List Outcome) (j k : Nat) (h : j ≤ k) (hk : k ≤ os.length) :
+    pEnd I os j ≤ pEnd I os k := by
+  induction k with
+  | zero => have : j = 0 := by omega
+            rw [this]; exact Nat.le_refl _
+  | succ n ih =>
+    rcases Nat.lt_or_eq_of_le h with hlt | heq
+    · have := ih (by omega) (by omega)
+      have := pEnd_mono_succ I os n (by omega)
+      omega
+    · rw [heq]; exact Nat.le_refl _
+
+/-- When no ping lasts as long as an interval, ping `k` is issued exactly on tick `k`. -/
+theorem pStart_grid (I : Nat) (hI : 0 < I) (os : List Outcome) (hshort : ∀ o ∈ os, o.dur < I) :
+    ∀ k, k ≤ os.length → pStart I os k = k * I ∧ pEnd I os k < (k + 1) * I := by
+  intro k
+  induction k with
+  | zero => intro _; simp [pStart_zero]; exact hI
+  | succ n ih =>
+    intro hk
+    obtain ⟨i1, i2⟩ := ih (by omega)
+    have hn : n < os.length := by omega
+    have h : os[n]? = some os[n] := List.getElem?_eq_getElem hn
+    obtain ⟨r1, r2⟩ := pStart_succ I os n _ h
+    have hd := hshort os[n] (List.getElem_mem hn)
+    have hs : pStart I os (n + 1) = (n + 1) * I := by
+      rw [r1, i1, nextStart, gridAfter_mul I n hI]
+      exact Nat.max_eq_right (by omega)
+    refine ⟨hs, ?_⟩
+    rw [r2, hs, Nat.add_mul (n + 1) 1 I]
+    omega
+
+/-- The instant at which ping `k` (k ≥ 1) of a loop that goes on pinging is issued / is over, in
+terms of the scripts; 0 for `k = 0` (no ping yet). -/
+def pingStart (I : Nat) (scs : List Script) (k : Nat) : Nat := pStart I (obsOf I scs) k
+def pingEnd (I : Nat) (scs : List Script) (k : Nat) : Nat := pEnd I (obsOf I scs) k
+
 /-- What is known about the state after the outcomes `os` (threshold `T ≥ 1`). -/
 def Inv (I T : Nat) (os : List Outcome) (s : St) : Prop :=
-  s.pings = tickTimes I s.tick ∧
+  (s.pings = (tm I (os.take s.tick)).pings ∧ s.last = pStart I os s.tick ∧ s.free = pEnd I os s.tick) ∧
   match s.status with
   | .running =>
     s.tick = os.length ∧ s.fails = trail os ∧ s.closeAt = none ∧ (∀ o ∈ os, o.isMnf = false) ∧
       (∀ k, k ≤ os.length → trail (os.take k) < T)
   | .closed =>
     ∃ d, 1 ≤ s.tick ∧ s.tick ≤ os.length ∧ os[s.tick - 1]? = some (.fail d) ∧
-      s.closeAt = some (s.tick * I + d) ∧ T ≤ trail (os.take s.tick) ∧
+      s.closeAt = some (s.last + d) ∧ T ≤ trail (os.take s.tick) ∧
       (∀ k, k < s.tick → trail (os.take k) < T) ∧ (∀ o ∈ os.take s.tick, o.isMnf = false)
   | .stopped =>
     ∃ d, 1 ≤ s.tick ∧ s.tick ≤ os.length ∧ os[s.tick - 1]? = some (.mnf d) ∧ s.closeAt = none ∧
       (∀ k, k < s.tick → trail (os.take k) < T) ∧ (∀ o ∈ os.take (s.tick - 1), o.isMnf = false)
 
+/-- The timing part of the invariant is preserved by one more ping. -/
+theorem timing_step (I : Nat) (os : List Outcome) (o : Outcome) (s : St) (h1 : s.tick = os.length)
+    (ht : s.pings = (tm I (os.take s.tick)).pings ∧ s.last = pStart I os s.tick ∧ s.free = pEnd I os s.tick) :
+    s.pings ++ [nextStart I s.last s.free] = (tm I ((os ++ [o]).take (s.tick + 1))).pings ∧
+      nextStart I s.last s.free = pStart I (os ++ [o]) (s.tick + 1) ∧
+      nextStart I s.last s.free + o.dur = pEnd I (os ++ [o]) (s.tick + 1) := by
+  obtain ⟨t1, t2, t3⟩ := ht
+  unfold pStart pEnd at *
+  rw [h1, List.take_length] at t1 t2 t3
+  rw [h1, List.take_of_length_le (by simp), tm_snoc]
+  simp [tmStep, t1, t2, t3]
+
+theorem timing_keep (I : Nat) (os : List Outcome) (o : Outcome) (s : St) (h2 : s.tick ≤ os.length)
+    (ht : s.pings = (tm I (os.take s.tick)).pings ∧ s.last = pStart I os s.tick ∧ s.free = pEnd I os s.tick) :
+    s.pings = (tm I ((os ++ [o]).take s.tick)).pings ∧ s.last = pStart I (os ++ [o]) s.tick ∧
+      s.free = pEnd I (os ++ [o]) s.tick := by
+  unfold pStart pEnd at *
+  rw [List.take_append_of_le_length h2]
+  exact ht
+
 theorem inv_runO (I T : Nat) (hT : 1 ≤ T) (os : List Outcome) : Inv I T os (runO I T os) := by
   induction os using snoc_induction with
-  | h0 => simp [Inv, runO, tickTimes]; omega
+  | h0 => simp [Inv, runO, tm, tmFrom, pStart, pEnd]; omega
   | hs os o ih =>
     rw [runO_snoc]
     generalize runO I T os = s at ih
@@ -167,6 +340,7 @@ theorem inv_runO (I T : Nat) (hT : 1 ≤ T) (os : List Outcome) : Inv I T os (ru
     | running =>
       rw [hs] at hst
       obtain ⟨h1, h2, h3, h4, h5⟩ := hst
+      have htm := timing_step I os o s h1 hp
       have hall : ∀ k, k ≤ (os ++ [o]).length → k ≤ os.length ∨ (os ++ [o]).take k = os ++ [o] := by
         intro k hk
         by_cases h : k ≤ os.length
@@ -176,7 +350,7 @@ theorem inv_runO (I T : Nat) (hT : 1 ≤ T) (os : List Outcome) : Inv I T os (ru
           rw [this, List.take_length]
       cases o with
       | ok d =>
-        refine ⟨by simp [stepO, hs, hp, tickTimes_succ], ?_⟩
+        refine ⟨by simpa [stepO, hs] using htm, ?_⟩
         simp only [stepO, hs]
         refine ⟨by simp [h1], by simp [trail_snoc, Outcome.isFail], h3, ?_, ?_⟩
         · intro o ho
@@ -188,7 +362,7 @@ theorem inv_runO (I T : Nat) (hT : 1 ≤ T) (os : List Outcome) : Inv I T os (ru
           · rw [take_le k h]; exact h5 k h
           · rw [h, trail_snoc]; simp [Outcome.isFail]; omega
       | mnf d =>
-        refine ⟨by simp [stepO, hs, hp, tickTimes_succ], ?_⟩
+        refine ⟨by simpa [stepO, hs] using htm, ?_⟩
         simp only [stepO, hs]
         refine ⟨d, by omega, by simp [h1], ?_, h3, ?_, ?_⟩
         · simp [h1]
@@ -201,7 +375,7 @@ theorem inv_runO (I T : Nat) (hT : 1 ≤ T) (os : List Outcome) : Inv I T os (ru
           exact h4 o ho
       | fail d =>
         by_cases hf : s.fails + 1 < T
-        · refine ⟨by simp [stepO, hs, hf, hp, tickTimes_succ], ?_⟩
+        · refine ⟨by simpa [stepO, hs, hf] using htm, ?_⟩
           simp only [stepO, hs, hf, if_true]
           refine ⟨by simp [h1], by simp [trail_snoc, Outcome.isFail, h2], h3, ?_, ?_⟩
           · intro o ho
@@ -212,7 +386,7 @@ theorem inv_runO (I T : Nat) (hT : 1 ≤ T) (os : List Outcome) : Inv I T os (ru
             rcases hall k hk with h | h
             · rw [take_le k h]; exact h5 k h
             · rw [h, trail_snoc]; simp [Outcome.isFail]; omega
-        · refine ⟨by simp [stepO, hs, hf, hp, tickTimes_succ], ?_⟩
+        · refine ⟨by simpa [stepO, hs, hf] using htm, ?_⟩
           simp only [stepO, hs, hf, if_false]
           refine ⟨d, by omega, by simp [h1], by simp [h1], rfl, ?_, ?_, ?_⟩
           · have : (os ++ [Outcome.fail d]).take (s.tick + 1) = os ++ [Outcome.fail d] := by
@@ -233,7 +407,7 @@ theorem inv_runO (I T : Nat) (hT : 1 ≤ T) (os : List Outcome) : Inv I T os (ru
       obtain ⟨d, h1, h2, h3, h4, h5, h6, h7⟩ := hst
       have hstep : stepO I T s o = s := by simp [stepO, hs]
       rw [hstep]
-      refine ⟨hp, ?_⟩
+      refine ⟨timing_keep I os o s h2 hp, ?_⟩
       rw [hs]
       refine ⟨d, h1, by simp; omega, ?_, h4, ?_, ?_, ?_⟩
       · rw [List.getElem?_append_left (by omega)]; exact h3
@@ -245,7 +419,7 @@ theorem inv_runO (I T : Nat) (hT : 1 ≤ T) (os : List Outcome) : Inv I T os (ru
       obtain ⟨d, h1, h2, h3, h4, h5, h6⟩ := hst
       have hstep : stepO I T s o = s := by simp [stepO, hs]
       rw [hstep]
-      refine ⟨hp, ?_⟩
+      refine ⟨timing_keep I os o s h2 hp, ?_⟩
       rw [hs]
       refine ⟨d, h1, by simp; omega, ?_, h4, ?_, ?_⟩
       · rw [List.getElem?_append_left (by omega)]; exact h3
